@@ -66,6 +66,82 @@ pub fn obs_locale(loc: &Locale) -> OLocale {
     }
 }
 
+/// The iterator-returning getters promise `ExactSizeIterator`.  Callers use more of that
+/// interface than `next()`: `len`, `size_hint`, `count`, `last`, `nth`, `fold`.  Every one of
+/// them must describe the same sequence as walking the iterator with `next()`.  `mk` builds a
+/// fresh iterator per question; `want` is the model's sequence.  Returns the first disagreement.
+pub fn iter_laws<X, I: ExactSizeIterator<Item = X>>(mk: impl Fn() -> I, show: impl Fn(X) -> String, want: &[String]) -> Option<String> {
+    let n = want.len();
+    // next() until None, then None again (fused in effect)
+    let mut it = mk();
+    let mut walked = vec![];
+    let mut remaining = vec![];
+    loop {
+        remaining.push((it.len(), it.size_hint()));
+        match it.next() {
+            Some(x) => walked.push(show(x)),
+            None => break,
+        }
+        if walked.len() > n + 8 {
+            return Some(format!("next() yields more than {} items", n + 8));
+        }
+    }
+    if walked != want {
+        return Some(format!("next() walk {:?} != {:?}", walked, want));
+    }
+    for (k, (l, h)) in remaining.iter().enumerate() {
+        if *l != n - k || *h != (n - k, Some(n - k)) {
+            return Some(format!("after {} next() calls: len() = {}, size_hint() = {:?}, remaining {}", k, l, h, n - k));
+        }
+    }
+    if mk().count() != n {
+        return Some(format!("count() = {} != {}", mk().count(), n));
+    }
+    let last = mk().last().map(&show);
+    if last.as_ref() != want.last() {
+        return Some(format!("last() = {:?} != {:?}", last, want.last()));
+    }
+    for k in 0..=n {
+        let got = mk().nth(k).map(&show);
+        if got.as_ref() != want.get(k) {
+            return Some(format!("nth({}) = {:?} != {:?}", k, got, want.get(k)));
+        }
+        // nth(k) then the rest
+        let mut it = mk();
+        let _ = it.nth(k);
+        let rest: Vec<String> = it.map(&show).collect();
+        let want_rest: &[String] = if k + 1 <= n { &want[k + 1..] } else { &[] };
+        if rest != want_rest {
+            return Some(format!("after nth({}) the rest is {:?} != {:?}", k, rest, want_rest));
+        }
+    }
+    let folded = mk().fold(Vec::new(), |mut acc, x| {
+        acc.push(show(x));
+        acc
+    });
+    if folded != want {
+        return Some(format!("fold {:?} != {:?}", folded, want));
+    }
+    // skip / take / step_by adaptors go through nth and size_hint
+    for k in 0..=n.min(3) {
+        let sk: Vec<String> = mk().skip(k).map(&show).collect();
+        if sk != want[k.min(n)..] {
+            return Some(format!("skip({}) {:?} != {:?}", k, sk, &want[k.min(n)..]));
+        }
+        if mk().skip(k).len() != n - k.min(n) {
+            return Some(format!("skip({}).len() = {}", k, mk().skip(k).len()));
+        }
+    }
+    if n > 0 {
+        let st: Vec<String> = mk().step_by(2).map(&show).collect();
+        let want_st: Vec<String> = want.iter().step_by(2).cloned().collect();
+        if st != want_st {
+            return Some(format!("step_by(2) {:?} != {:?}", st, want_st));
+        }
+    }
+    None
+}
+
 pub fn exp_langid(m: &MLangId) -> OLangId {
     OLangId {
         lang: m.lang.clone(),
